@@ -11,7 +11,7 @@ shutil.copytree(f"{src}/demo", f"{dst}/demo")
 files = [l[6:] for l in open(f"{src}/patch.diff") if l.startswith("+++ b/")]
 files = [f.strip() for f in files]
 demo_pkgs = sorted({os.path.dirname(os.path.relpath(os.path.join(r, f), f"{src}/demo")) for r, _, fs in os.walk(f"{src}/demo") for f in fs})
-meta = {"property": prop, "round": 2, "summary": summary, "breaks": breaks, "needs_to_manifest": needs, "files": files,
+meta = {"property": prop, "round": int(sid.split("-r")[1]) if "-r" in sid else 1, "summary": summary, "breaks": breaks, "needs_to_manifest": needs, "files": files,
  "confirmed_by_me": {"build": "go build ./... in the agent's worktree with the change: ok",
   "existing_tests": "go test -mod=mod -vet=off -count=1 -timeout 25m -skip TestSeeded ./... with the change: ok (load flakes in event / peerdb / pubsubManager re-run alone: ok)",
   "demo_with_change": "go test -run TestSeeded ./" + " ./".join(demo_pkgs) + ": FAIL",
